@@ -13,6 +13,9 @@ package main
 import (
 	"bufio"
 	"bytes"
+	"crypto/ecdsa"
+	"crypto/elliptic"
+	"crypto/rand"
 	"crypto/tls"
 	"encoding/base64"
 	"encoding/json"
@@ -49,11 +52,15 @@ type c20Subscriber struct {
 }
 
 func c20Connect(addr string, read bool) (*c20Subscriber, error) {
+	return c20ConnectOpts(addr, read, !read)
+}
+
+func c20ConnectOpts(addr string, read, smallBuffer bool) (*c20Subscriber, error) {
 	raw, err := net.DialTimeout("tcp", addr, 10*time.Second)
 	if err != nil {
 		return nil, err
 	}
-	if !read {
+	if smallBuffer {
 		// a subscriber that never reads: a small receive buffer, so that the daemon's per-subscriber queue (not the
 		// kernel) is what fills up after a few dozen events
 		if tc, ok := raw.(*net.TCPConn); ok {
@@ -380,6 +387,133 @@ func TestVerifC20(t *testing.T) {
 			return env.Do(verifReq{Method: "POST", Path: "/api/v0/vipAuth", Form: url.Values{"OTP": {"777777"}}, Cookies: verifCk(aliceCk)}.Build())
 		}, func(e c20Event) bool { return e.Type == "Auth" && e.AuthType == "SymantecVIP" && e.Username == "alice" })
 	}
+	// ---- a subscriber that pauses briefly (well within the daemon's 16-entry queue for it) while several certificates
+	// are issued back to back, then reads on: it must get exactly those certificates, byte for byte, in issuing order
+	{
+		rounds := 6
+		if verifThorough() {
+			rounds = 60
+		}
+		for r := 0; r < rounds; r++ {
+			s, err := c20ConnectOpts(addr, false, false)
+			if err != nil {
+				rep.Inconc("paused subscriber: %v", err)
+				break
+			}
+			k := 3 + r%8
+			var issuedDER [][]byte
+			for i := 0; i < k; i++ {
+				key, _ := ecdsa.GenerateKey(elliptic.P256(), rand.Reader)
+				q := verifCertReq("alice", "x509", verifPKIXPEM(key.Public()), "1h", nil)
+				q.Cookies = verifCk(aliceCk)
+				resp := env.Do(q.Build())
+				if cert, err := verifParseX509PEM(resp.Body); resp.Code == 200 && err == nil {
+					issuedDER = append(issuedDER, cert.Raw)
+				}
+			}
+			name := fmt.Sprintf("paused-%d", r)
+			verifPublishSentinel(name)
+			s.startReading()
+			evs, ok := s.upTo(name, 20*time.Second)
+			s.conn.Close()
+			if !ok {
+				rep.Inconc("paused subscriber: the sentinel after %d certificates was not received", k)
+				continue
+			}
+			var got [][]byte
+			for _, e := range evs {
+				if e.Type == "X509" || (len(e.CertData) > 0 && e.Type != "SSH") {
+					got = append(got, e.CertData)
+				}
+			}
+			same := len(got) == len(issuedDER)
+			for i := 0; same && i < len(got); i++ {
+				same = bytes.Equal(got[i], issuedDER[i])
+			}
+			rep.Eval(fmt.Sprintf("paused-subscriber|k=%d|exact=%v", k, same))
+			rep.Count("paused_subscriber_rounds", 1)
+			if !same {
+				mism := -1
+				for i := 0; i < len(got) && i < len(issuedDER); i++ {
+					if !bytes.Equal(got[i], issuedDER[i]) {
+						mism = i
+						break
+					}
+				}
+				rep.Violate("C20/queued-certificates-differ-from-issued", "a subscriber that paused while several certificates were issued received certificate events that are not, byte for byte and in order, the certificates returned to the requester",
+					map[string]interface{}{"issued": len(issuedDER), "received": len(got), "first_mismatch_at": mism})
+			}
+		}
+	}
+	// ---- certificates issued at the same moment by concurrent requests: a reading subscriber gets each of them exactly
+	// once with the bytes returned to its requester (the order among concurrent issuances is free)
+	{
+		rounds, par := 25, 8
+		if verifThorough() {
+			rounds = 300
+		}
+		s, err := c20Connect(addr, true)
+		if err != nil {
+			rep.Inconc("concurrent issuance subscriber: %v", err)
+		} else {
+			for r := 0; r < rounds; r++ {
+				ders := make([][]byte, par)
+				var wgp sync.WaitGroup
+				startp := make(chan struct{})
+				for i := 0; i < par; i++ {
+					wgp.Add(1)
+					go func(i int) {
+						defer wgp.Done()
+						key, _ := ecdsa.GenerateKey(elliptic.P256(), rand.Reader)
+						q := verifCertReq("alice", "x509", verifPKIXPEM(key.Public()), "1h", nil)
+						q.Cookies = verifCk(aliceCk)
+						req := q.Build()
+						<-startp
+						resp := env.Do(req)
+						if cert, err := verifParseX509PEM(resp.Body); resp.Code == 200 && err == nil {
+							ders[i] = cert.Raw
+						}
+					}(i)
+				}
+				close(startp)
+				wgp.Wait()
+				name := fmt.Sprintf("concurrent-%d", r)
+				verifPublishSentinel(name)
+				evs, ok := s.upTo(name, 20*time.Second)
+				if !ok {
+					rep.Inconc("concurrent issuance: sentinel of round %d not received", r)
+					break
+				}
+				seen := map[string]int{}
+				for _, e := range evs {
+					if len(e.CertData) > 0 {
+						seen[string(e.CertData)]++
+					}
+				}
+				missing, dup, issuedN := 0, 0, 0
+				for _, d := range ders {
+					if d == nil {
+						continue
+					}
+					issuedN++
+					switch n := seen[string(d)]; {
+					case n == 0:
+						missing++
+					case n > 1:
+						dup++
+					}
+				}
+				rep.Eval(fmt.Sprintf("concurrent-issuance|issued=%d|missing=%v|duplicated=%v", issuedN, missing > 0, dup > 0))
+				rep.Count("concurrent_issuance_rounds", 1)
+				if missing > 0 || dup > 0 {
+					rep.Violate("C20/concurrent-issuance/events-differ-from-issued", fmt.Sprintf("%d certificates issued at the same moment: %d were never published with their own bytes, %d were published more than once", issuedN, missing, dup),
+						map[string]interface{}{"round": r, "issued": issuedN, "certificate_events_received": len(seen)})
+					break
+				}
+			}
+			s.conn.Close()
+		}
+	}
 	// ---- a slow subscriber never blocks issuance: 0..3 subscribers, one never reads
 	burst := 120
 	if verifThorough() {
@@ -579,6 +713,8 @@ func TestVerifC20(t *testing.T) {
 	rep.Floor("burst_deliveries_to_reading_subscribers", 200)
 	rep.Floor("bursts_where_stalled_queue_overflowed", 1)
 	rep.Floor("stalled_subscribers_recovered", 2)
+	rep.Floor("paused_subscriber_rounds", 5)
+	rep.Floor("concurrent_issuance_rounds", 20)
 }
 
 func evTypes(evs []c20Event) []string {
